@@ -141,6 +141,20 @@ package stackitem
 // every element is indexed under its key's code at its own position, and the index has no other entries
 //@ spec wfMap(m *Map) bool = m != nil && m.dict != nil && len(m.dict) == len(m.value) && forall(j, 0, len(m.value), has(m.dict, hcOf(m.value[j].Key)) && m.dict[hcOf(m.value[j].Key)] == j) && forallkeys(m.dict, k, has(m.dict, k) ==> 0 <= m.dict[k] && m.dict[k] < len(m.value))
 
+//@ prop C12,C13
+// CLEARITEMS reads the elements before it empties the collection and releases them afterwards:
+// emptying an Array or Struct only drops the header's view, it does not write the elements.
+//@ func (*Array).Clear
+//@ may-panic
+//@ requires i != nil
+//@ modifies i.value
+//@ ensures[empty] len(i.value) == 0
+//@ func (*Struct).Clear
+//@ may-panic
+//@ requires i != nil
+//@ modifies i.value
+//@ ensures[empty] len(i.value) == 0
+//@ prop C13
 //@ func (*Map).Clear
 //@ may-panic
 //@ requires wfMap(i)
